@@ -57,7 +57,13 @@ Mut(x) == Repl \cup
                 \cup (IF Len(x.v) >= 1 THEN {Arr(Tail(x.v)), Arr(Append(x.v, x.v[1]))} ELSE {}))
 Ring1 == Arr(<<P2>>)
 Ring2 == Arr(<<P2, Arr(<<Num(2), Num(1)>>)>>)
-Bases == {<<"Point", P2>>, <<"LineString", Ring2>>, <<"MultiPoint", Ring1>>,
+(* rings whose closing position is itself repeated, and a ring of one position three times: still closed when a decoder
+   "normalises" one closing position away, so that decoding the re-encoded result would differ *)
+Q2 == Arr(<<Num(2), Num(1)>>)
+RingDD == Arr(<<P2, Q2, Arr(<<Num(2), Num(2)>>), P2, P2>>)
+RingPPP == Arr(<<P2, P2, P2>>)
+Bases == {<<"Polygon", Arr(<<RingDD>>)>>, <<"MultiPolygon", Arr(<<Arr(<<RingPPP, RingDD>>)>>)>>, <<"LineString", RingPPP>>,
+          <<"Point", P2>>, <<"LineString", Ring2>>, <<"MultiPoint", Ring1>>,
           <<"Polygon", Arr(<<Ring2, Ring1>>)>>, <<"MultiLineString", Arr(<<Ring1, Ring2>>)>>, <<"Polygon", Arr(<<Ring2, Arr(<<>>)>>)>>,
           <<"MultiPolygon", Arr(<<Arr(<<Ring2>>), Arr(<<Ring1, Arr(<<>>)>>)>>)>>, <<"MultiPolygon", Arr(<<Arr(<<Ring1>>)>>)>>}
 Mutants == UNION {{<<b[1], y>> : y \in Mut(b[2]) \cup {b[2]}} : b \in Bases}
